@@ -56,6 +56,15 @@ func (p *planner) Handle(resp tq.Response, req tq.Request) {
 	if st.Next {
 		resp.Next(p)
 	}
+	if st.UseWrite && st.Reply != nil {
+		// the "total control" path: the handler builds the packet itself, starting from a copy
+		// of the request header (whose length field still says how long the REQUEST body was)
+		h := req.Header
+		h.SeqNo++
+		body, _ := st.Reply.MarshalBinary()
+		resp.Write(&tq.Packet{Header: &h, Body: body})
+		return
+	}
 	if st.First != nil {
 		if _, err := resp.Reply(st.First); err == nil {
 			return // it could be sent after all: that was the reply
